@@ -80,36 +80,67 @@ def handleSer (dag nS vkind ins : String) : String :=
   match parseDag dag, nS.toNat? with
   | some ctx, some n =>
     let entries := if ins == "-" then [] else ins.splitOn ";"
-    let parsed : Option (List (Key × String)) := entries.mapM (fun e =>
+    -- `!` = an interim `serialize()` call on the object (its result is reported in a trailing field)
+    let parsed : Option (List (Option (Key × String))) := entries.mapM (fun e =>
+      if e == "!" then some none else
       match e.splitOn "=" with
-      | [k, v] => (parseKey k).map (fun key => (key, v))
+      | [k, v] => (parseKey k).map (fun key => some (key, v))
       | _ => none)
     match parsed with
     | none => "bad-op"
     | some es =>
-      let (d, flags) := es.foldl (fun (acc : Dict String × String) e =>
-        match Hashmap.set sha n e.1 e.2 acc.1 with
-        | some d' => (d', acc.2 ++ "1")
-        | none => (acc.1, acc.2 ++ "0")) (([] : Dict String), "")
+      let serHash (d : Dict String) : String :=
+        match serialize n (valSer ctx vkind) d with
+        | none => "err"
+        | some none => "none"
+        | some (some c) => match Cell.info sha c with | none => "err" | some i => hexOfBytes i.hash
+      let (d, flags, interim) := es.foldl (fun (acc : Dict String × String × List String) e =>
+        match e with
+        | none => (acc.1, acc.2.1, acc.2.2 ++ [serHash acc.1])
+        | some e =>
+          match Hashmap.set sha n e.1 e.2 acc.1 with
+          | some d' => (d', acc.2.1 ++ "1", acc.2.2)
+          | none => (acc.1, acc.2.1 ++ "0", acc.2.2)) (([] : Dict String), "", [])
       let fl := if flags.isEmpty then "-" else flags
+      let tail := if interim.isEmpty then "" else " " ++ ".".intercalate interim
       match serialize n (valSer ctx vkind) d with
-      | none => s!"ok {fl} err -"
-      | some none => s!"ok {fl} none -"
+      | none => s!"ok {fl} err -{tail}"
+      | some none => s!"ok {fl} none -{tail}"
       | some (some c) =>
         match Cell.info sha c with
-        | none => s!"ok {fl} err -"
-        | some i => s!"ok {fl} {hexOfBytes i.hash} {showP (hashMapParse c n)}"
+        | none => s!"ok {fl} err -{tail}"
+        | some i => s!"ok {fl} {hexOfBytes i.hash} {showP (hashMapParse c n)}{tail}"
   | _, _ => "bad-op"
 
 def uintDec (y : Nat) : AugDec Val Nat where
   decY := fun s => (Hashmap.loadUint y s.1).map (fun p => (p.1, (p.2, s.2)))
   decX := fun s => some s
 
+/-- `Y = uint y ++ Maybe ^Cell`: an augmentation value that owns a reference (as CurrencyCollection's `other` dictionary
+does); rendered `v` or `v^<hash>` -/
+def uintRefDec (y : Nat) : AugDec Val String where
+  decY := fun s =>
+    match Hashmap.loadUint y s.1 with
+    | none => none
+    | some (v, bits1) =>
+      match bits1 with
+      | [] => none
+      | false :: bits2 => some (toString v, (bits2, s.2))
+      | true :: bits2 =>
+        match s.2 with
+        | [] => none
+        | c :: rs => some (s!"{v}^{cellHash c}", (bits2, rs))
+  decX := fun s => some s
+
+def showAugS (kv : Dict Val) (ex : List String) : String :=
+  showDict kv ++ " " ++ (if ex.isEmpty then "-" else ".".intercalate ex)
+
 def showAug (kv : Dict Val) (ex : List Nat) : String :=
   showDict kv ++ " " ++ (if ex.isEmpty then "-" else ".".intercalate (ex.map toString))
 
 /-- `hmparse <dag> <node> <n> <mode>`; modes: p (parse_hashmap), h (HashMap.parse), f (from_cell),
-    ld (load_dict / preload_dict on a cell holding the maybe-ref), aug:<ybits>, auge:<ybits> -/
+    ld (load_dict / preload_dict on a cell holding the maybe-ref), aug:<ybits>, auge:<ybits>,
+    augr:<ybits> / auger:<ybits> (extra = uint ybits ++ Maybe ^Cell: the augmentation owns a reference) -/
 def handleParse (dag node nS mode : String) : String :=
   match parseDag dag, nS.toNat? with
   | some ctx, some n =>
@@ -127,6 +158,20 @@ def handleParse (dag node nS mode : String) : String :=
           | .err => "err"
           | .none => "ok none"
           | .dict (kv, ex) => "ok " ++ showAug kv ex
+      | ["augr", y] => match y.toNat? with
+        | none => "bad-op"
+        | some yb => match parseHashmapAug (uintRefDec yb) c n with
+          | .err => "err"
+          | .none => "ok none"
+          | .dict (kv, ex) => "ok " ++ showAugS kv ex
+      | ["auger", y] => match y.toNat?, c with
+        | none, _ => "bad-op"
+        | some yb, .mk kind bits refs => match loadHashmapAugE (uintRefDec yb) kind bits refs n with
+          | .err => "err"
+          | .none => "ok none"
+          | .cell => "ok cell"
+          | .empty y => "ok " ++ showAugS [] [y]
+          | .dict kv ex => "ok " ++ showAugS kv ex
       | ["auge", y] => match y.toNat?, c with
         | none, _ => "bad-op"
         | some yb, .mk kind bits refs => match loadHashmapAugE (uintDec yb) kind bits refs n with
